@@ -25,6 +25,7 @@ DO_SHAPES = {
     "diamond": (["A", "B", "C", "D"], {"A": [], "B": ["A"], "C": ["A"], "D": ["C", "B"]}),
     "frontdoor": (["U", "X", "M", "Y"], {"U": [], "X": ["U"], "M": ["X"], "Y": ["M", "U"]}),
     "iso": (["A", "B", "C"], {"A": [], "B": ["A"], "C": []}),
+    "mixedkids": (["P", "X", "M", "Y"], {"P": [], "X": ["P"], "M": ["X"], "Y": ["X", "P"]}),
 }
 
 
@@ -63,6 +64,13 @@ def scenarios(tier, seed):
                             out.append(d)
                             if r == 1 and algo == "ve":
                                 out.append(dict(d, family="query/ve-adjsets", adj="enumerated"))
+                    if r == 1 and len(ys) >= 2:
+                        for y1, y2 in itertools.permutations(ys, 2):
+                            k += 1
+                            out.append(dict(family="query/pair", mode="query", shape=sname, nodes=nodes, parents=parents, card=card, xs=list(xs), y=y1, y2=y2,
+                                            algo=["ve", "bp"][k % 2] if sname != "iso" else "ve", xstate=k, states=C.STATE_STYLES[k % len(C.STATE_STYLES)],
+                                            hashseed=k % 2, budget_s=60, adj="default",
+                                            **(dict(fixed_cpds=[nodes[(k + 1) % 4], nodes[(k + 2) % 4]], fixed_seed=k) if len(nodes) == 4 and tier == "quick" else {})))
     # criteria on all small DAGs
     for n in (3, 4):
         pairs = [(u, v) for u in range(n) for v in range(u + 1, n)]
@@ -70,6 +78,25 @@ def scenarios(tier, seed):
             edges = [pairs[i] for i in range(len(pairs)) if mask >> i & 1]
             k += 1
             out.append(dict(family=f"criteria/n{n}", mode="criteria", n=n, edges=edges, latent=(None if k % 3 else k % n), hashseed=k % 2))
+    # five nodes with one latent variable (latent mediators / confounders need the extra node): seeded sample + graphs forced to contain
+    # a latent chain u -> L -> w
+    import random as _r
+    rq = _r.Random(1000 + seed)
+    pairs5 = [(u, v) for u in range(5) for v in range(u + 1, 5)]
+    for i in range(70 if tier == "quick" else 400):
+        edges = [p for p in pairs5 if rq.random() < 0.4]
+        lat = rq.randrange(5)
+        if i % 2 == 0:
+            lat = rq.randrange(1, 4)
+            u = rq.randrange(0, lat)
+            w = rq.randrange(lat + 1, 5)
+            edges = sorted(set(edges) | {(u, lat), (lat, w)})
+        out.append(dict(family="criteria/n5-latent", mode="criteria", n=5, edges=[list(e) for e in edges], latent=lat, hashseed=i % 2, budget_s=60))
+    # latent mediator below the cause: 1 -> L(2) -> 3 with every combination of the remaining edges
+    free = [p for p in pairs5 if p not in ((1, 2), (2, 3))]
+    for mask in range(0, 1 << len(free)):
+        edges = [(1, 2), (2, 3)] + [free[i] for i in range(len(free)) if mask >> i & 1]
+        out.append(dict(family="criteria/n5-latent-mediator", mode="criteria", n=5, edges=[list(e) for e in sorted(edges)], latent=2, hashseed=mask % 2, budget_s=60))
     if tier == "thorough":
         import random
         rnd = random.Random(seed)
@@ -150,6 +177,22 @@ def truncated(desc, tabs, xs, xstate, y, ystate):
     return tot
 
 
+def truncated2(desc, tabs, xs, xstate, fixed):
+    nodes = desc["nodes"]
+    rest = [v for v in nodes if v not in xs and v not in fixed]
+    tot = None
+    for b in C.assignments(desc, rest):
+        a = {**b, **xstate, **fixed}
+        t = None
+        for v in nodes:
+            if v in xs:
+                continue
+            x = tabs[v][a[v]][C.col_index(desc, v, a)]
+            t = x if t is None else t * x
+        tot = t if tot is None else tot + t
+    return tot
+
+
 def run_query(desc, M):
     from pgmpy.inference import CausalInference
     M.declare(C.sym_names(desc))
@@ -180,6 +223,16 @@ def run_query(desc, M):
     known = None
     if len(xs) >= 2 and any(p in xs or any(_desc(x2, p) for x2 in xs if x2 != x1) for x1 in xs for p in parents[x1]):
         known = f"query/{desc['algo']}:known-joint-intervention-parent-adjustment"
+    if desc.get("y2"):
+        y2 = desc["y2"]
+        res = ci.query([nm[y], nm[y2]], do=do, inference_algo=desc["algo"], show_progress=False)
+        if M.check(set(res.variables) == {nm[y], nm[y2]}, "interventional query scope (two variables)", detail=str(res.variables)):
+            for s1 in range(card[y]):
+                for s2 in range(card[y2]):
+                    idx = tuple(res.name_to_no[v_][C.sname(desc, {nm[y]: y, nm[y2]: y2}[v_], {nm[y]: s1, nm[y2]: s2}[v_])] for v_ in res.variables)
+                    M.eq(res.values[idx], truncated2(desc, tabs, xs, xstate, {y: s1, y2: s2}), "P(Y1, Y2 | do(X=x)) equals the truncated factorisation",
+                         key=known, detail=f"{y},{y2}")
+        return
     for adj in adjs:
         kw = {} if adj is None else {"adjustment_set": adj}
         res = ci.query([nm[y]], do=do, inference_algo=desc["algo"], show_progress=False, **kw)
